@@ -45,6 +45,19 @@ func recordStream(enc *json.Encoder, def lexer.Definition, label string, nodrop 
 			}
 		}()
 		const fn = "dir/file.x"
+		var callerBuf []byte
+		var toks []lexer.Token
+		// token values are judged after the caller has reused its buffer (LexBytes must not alias it)
+		defer func() {
+			for i := range callerBuf {
+				callerBuf[i] = '#'
+			}
+			for i, t := range toks {
+				if i < len(evs) && evs[i]["ev"] == "tok" {
+					evs[i]["vok"] = t.Pos.Offset >= 0 && t.Pos.Offset+len(t.Value) <= len(in) && in[t.Pos.Offset:t.Pos.Offset+len(t.Value)] == t.Value
+				}
+			}
+		}()
 		var l lexer.Lexer
 		var err error
 		sd, isStr := def.(lexer.StringDefinition)
@@ -65,7 +78,8 @@ func recordStream(enc *json.Encoder, def lexer.Definition, label string, nodrop 
 		case strings.HasSuffix(label, "/reader") || !isStr:
 			l, err = def.Lex(fn, strings.NewReader(in))
 		case strings.HasSuffix(label, "/bytes") && isBytes:
-			l, err = bd.LexBytes(fn, []byte(in))
+			callerBuf = []byte(in)
+			l, err = bd.LexBytes(fn, callerBuf)
 		default:
 			l, err = sd.LexString(fn, in)
 		}
@@ -83,6 +97,7 @@ func recordStream(enc *json.Encoder, def lexer.Definition, label string, nodrop 
 				ok = true
 				return
 			}
+			toks = append(toks, t)
 			vok := t.Pos.Offset >= 0 && t.Pos.Offset+len(t.Value) <= len(in) && in[t.Pos.Offset:t.Pos.Offset+len(t.Value)] == t.Value
 			evs = append(evs, ev{"ev": "tok", "off": t.Pos.Offset, "len": len(t.Value), "line": t.Pos.Line, "col": t.Pos.Column, "vok": vok, "fok": t.Pos.Filename == fn})
 		}
